@@ -715,6 +715,8 @@ def setitem(eng, c, k, v):
         c.e = z3.If(k.e, _real(eng.num(v)), c.e)          # arr[mask] = v
         return
     if isinstance(c, Obj):
+        if '__setitem__' in c.attrs:
+            return eng.call(c.attrs['__setitem__'], [k, v], {})
         k_ = c.__dict__.get('klass')
         if k_ is not None and k_.lookup('__setitem__') is not None:
             return eng.call_closure(k_.lookup('__setitem__').bind(c), [k, v], {})
